@@ -8,6 +8,21 @@ import subprocess
 import vp
 
 
+_CARGO = []
+
+
+def real_cargo():
+    """the toolchain's own cargo binary (not the rustup proxy, which needs HOME and PATH)"""
+    if not _CARGO:
+        try:
+            root = subprocess.run(["rustc", "--print", "sysroot"], stdout=subprocess.PIPE, text=True, cwd=vp.REPO).stdout.strip()
+        except OSError:
+            root = ""
+        p = os.path.join(root, "bin", "cargo")
+        _CARGO.append(p if root and os.path.exists(p) else "cargo")
+    return _CARGO[0]
+
+
 class Env:
     def __init__(self, root, as_nobody=False):
         self.root = root
@@ -22,7 +37,8 @@ class Env:
     def create(self, fixture_files):
         for d in (self.bin, self.tmp, self.crate):
             os.makedirs(d, exist_ok=True)
-        for n in ("docker", "pack"):
+        # (musl-gcc: libcnb-test only looks it up before packaging a buildpack of the crate under test for the default target; it is never run here)
+        for n in ("docker", "pack", "musl-gcc"):
             p = os.path.join(self.bin, n)
             if not os.path.lexists(p):
                 os.symlink(os.path.join(vp.BIN, "vpstandin"), p)
@@ -54,7 +70,9 @@ class Env:
             json.dump(plan or {}, f)
         # PATH holds the stand-ins only: a real docker CLI may be installed on the machine, and a stand-in that a scripted fault removed
         # must really be "not found"
-        env = {"PATH": self.bin, "HTTP_PROXY": "http://proxy.host:3128", "HTTPS_PROXY": "http://proxy.host:3128", "NO_PROXY": "localhost", "http_proxy": "http://proxy.host:3128", "https_proxy": "http://lower.proxy:1", "no_proxy": "x", "DOCKER_HOST": "unix:///nonexistent.sock", "TMPDIR": self.tmp, "CARGO_MANIFEST_DIR": self.crate, "VP_CMDLOG": self.log, "VP_CMDPLAN": self.plan, "VP_STANDIN_BIN": self.bin, "VP_STANDIN_TARGET": os.path.join(vp.BIN, "vpstandin"), "RUST_BACKTRACE": "0"}
+        env = {"PATH": self.bin, "HTTP_PROXY": "http://proxy.host:3128", "HTTPS_PROXY": "http://proxy.host:3128", "NO_PROXY": "localhost", "http_proxy": "http://proxy.host:3128", "https_proxy": "http://lower.proxy:1", "no_proxy": "x", "DOCKER_HOST": "unix:///nonexistent.sock", "TMPDIR": self.tmp, "CARGO_MANIFEST_DIR": self.crate, "VP_CMDLOG": self.log, "VP_CMDPLAN": self.plan, "VP_STANDIN_BIN": self.bin, "VP_STANDIN_TARGET": os.path.join(vp.BIN, "vpstandin"), "RUST_BACKTRACE": "0",
+               # (cargo test sets CARGO; libcnb-test asks it for the workspace root when it packages a buildpack of the crate under test)
+               "CARGO": real_cargo()}
         try:
             import shutil
             nobody = [shutil.which(vp.NOBODY[0]) or vp.NOBODY[0]] + vp.NOBODY[1:]
